@@ -7,6 +7,8 @@
 //!        simstep runlx <programs> <lines-per-program>      only CALL / TCALL of a builtin in the table of
 //!                            lean/Marwood/Vm/ListExt.lean; `ext := X lx <idx> <eqbit>`: the DRIVER computes the builtin
 //!                            with `ListExt.builtinEval` (bucket `listext`, see ../simstep_lx.rs). `run` is unchanged.
+//!        simstep prep <sessions>   stream "prepare-installs": the state before / after `prepare_eval` of every form of
+//!                            generated sessions, checked by the driver command `prepcheck` (see ../prep_forms.rs)
 //!        simstep probe       six operands that index outside their structure (Rust panics, the model's total
 //!                            signatures do not): NOT part of the stream, for the report only
 //!
@@ -55,6 +57,8 @@
 //!              [0..=sp]) | err <class as trace.rs err_name> | panic
 #[path = "../gc_programs.rs"]
 mod programs;
+#[path = "../prep_forms.rs"]
+mod prep_forms;
 
 use marwood::error::Error;
 use marwood::parse;
@@ -806,6 +810,7 @@ fn main() {
         Some("runlx") if args.len() >= 3 => cmd_runlx(&args[1..], seed),
         Some("probe") => cmd_probe(),
         Some("witness") => cmd_witness(),
+        Some("prep") if args.len() >= 2 => prep_forms::cmd_prep(&args[1..], seed),
         _ => {
             eprintln!("usage: simstep run <programs> <lines-per-program>");
             std::process::exit(2);
